@@ -201,3 +201,38 @@ def anchors(facts):
         a = Anchors(facts)
         facts._anchors = a
     return a
+
+
+# ------------------------------------------------------------------------------------------
+# allocation wrappers: crate functions that return, on every path, an object they have just allocated
+
+def alloc_wrappers(facts):
+    """{body id}: non-closure crate functions whose returned Shared derives, on every path, from Shared::boxed (or from another such
+    function): calling one is allocating a fresh, private object in the caller (e.g. a `new_list_node` helper extracted from put)"""
+    w = getattr(facts, "_alloc_wrappers", None)
+    if w is not None:
+        return w
+    from .analysis import flow
+    w = set()
+    cands = [b for b in facts.bodies if b.kind != "Closure" and b.locals and b.ty(0).get("base") == "reclaim::Shared"]
+    changed = True
+    while changed:
+        changed = False
+        for b in cands:
+            if b.id in w:
+                continue
+            roots, _ = flow(b).roots(0)
+            calls = [b.call_at(r[1]) for r in roots if r[0] == "call"]
+            if roots and len(calls) == len(roots) and all(
+                    c is not None and (callee_str(c).endswith("reclaim::Shared::boxed") or c.resolved in w) for c in calls):
+                w.add(b.id)
+                changed = True
+    facts._alloc_wrappers = w
+    return w
+
+
+def is_fresh_alloc(body, c):
+    """the call allocates a fresh heap object owned by the caller: Shared::boxed or an allocation wrapper of the crate"""
+    if c is None:
+        return False
+    return callee_str(c).endswith("reclaim::Shared::boxed") or c.resolved in alloc_wrappers(body.facts)
